@@ -432,3 +432,8 @@ func vRSAPSSSign(key *rsa.PrivateKey, hash int, digest []byte) []byte {
 	}
 	return sig
 }
+
+// vWritesInto: number of stores (since vFreeze) into objects reachable from x
+// that existed before vFreeze. Not observable natively (the native oracle for
+// such properties is a deep comparison with a snapshot).
+func vWritesInto(x any) int { return 0 }
